@@ -172,7 +172,8 @@ func historyEncrypter(t *engine.T, ks []*key) {
 		}
 		encB, _ := m.new()
 		ln := lane(fk)
-		pws := [][]byte{pw, []byte("C14-history-enc-2")}
+		// two passwords of the same length: in the second pass below they are written into one buffer, in place
+		pws := [][]byte{pw, []byte("C14-history-enC")}
 		do := func(enc pkcs.PBESEncrypter, k *key, pw []byte) []byte {
 			t.Eval(1)
 			var out []byte
@@ -230,23 +231,46 @@ func historyEncrypter(t *engine.T, ks []*key) {
 			pw  int
 			who string
 		}{{encA, small, 0, "A"}, {encA, large, 1, "A"}, {encB, mid, 0, "B"}, {encA, small, 0, "A"}, {encB, large, 1, "B"}, {encA, mid, 1, "A"}, {encB, small, 0, "B"}, {encA, small, 1, "A"}}
-		hist := ""
-		for i, s := range seq {
-			if i == 3 {
-				// an Encrypt that fails for lack of randomness must leave the object usable
-				t.Eval(1)
-				t.Guard(fk+"/failing-reader", func() { _, _, _ = encA.Encrypt(errReader{}, pw, small.p8) })
-				hist += " ; A.Encrypt(failing reader)"
+		for _, inPlace := range []bool{false, true} {
+			hist := ""
+			pwBuf := make([]byte, len(pw))
+			if inPlace {
+				// the caller keeps ONE password buffer and overwrites it between the calls (same address, same length, other
+				// content): an object that remembers the slice it was given sees its own copy change
+				hist = " [one password buffer overwritten in place]"
+				a2, _ := m.new()
+				b2, _ := m.new()
+				for i := range seq {
+					if seq[i].who == "A" {
+						seq[i].enc = a2
+					} else {
+						seq[i].enc = b2
+					}
+				}
+				encA = a2
 			}
-			hist += fmt.Sprintf(" ; %s.Encrypt(%s, password %d)", s.who, s.k.name, s.pw)
-			out := do(s.enc, s.k, pws[s.pw])
-			if out == nil {
-				break
-			}
-			if want := base[kp{s.k, s.pw}]; !bytes.Equal(out, want) {
-				t.Fail(fk+"/depends-on-history", "after%s the container differs from the one a fresh encrypter writes with the same stream (first difference at byte %d of %d)", hist, engine.FirstDiff(out, want), len(out))
-				opens(out, s.k, pws[s.pw], "after"+hist)
-				break
+			for i, s := range seq {
+				if i == 3 {
+					// an Encrypt that fails for lack of randomness must leave the object usable
+					t.Eval(1)
+					t.Guard(fk+"/failing-reader", func() { _, _, _ = encA.Encrypt(errReader{}, pw, small.p8) })
+					hist += " ; A.Encrypt(failing reader)"
+				}
+				hist += fmt.Sprintf(" ; %s.Encrypt(%s, password %d)", s.who, s.k.name, s.pw)
+				pwArg := pws[s.pw]
+				if inPlace {
+					copy(pwBuf, pws[s.pw])
+					pwArg = pwBuf
+				}
+				out := do(s.enc, s.k, pwArg)
+				if out == nil {
+					break
+				}
+				if want := base[kp{s.k, s.pw}]; !bytes.Equal(out, want) {
+					t.Fail(fk+"/depends-on-history", "after%s the container differs from the one a fresh encrypter writes with the same stream (first difference at byte %d of %d)", hist, engine.FirstDiff(out, want), len(out))
+					opens(out, s.k, pws[s.pw], "after"+hist)
+					break
+				}
 			}
 		}
 		t.Outcome("history-encrypter-ok/" + m.name)
